@@ -62,11 +62,15 @@ Definition sort3 (t : nat * nat * nat) : list Z :=
   let '(a, b, c) := t in
   let lo := Nat.min a (Nat.min b c) in let hi := Nat.max a (Nat.max b c) in
   [Z.of_nat lo; Z.of_nat (a + b + c - lo - hi); Z.of_nat hi].
+Fixpoint pos_in (x : nat) (l : list nat) : nat :=
+  match l with [] => 0%nat | y :: t => if Nat.eqb x y then 0%nat else S (pos_in x t) end.
 (* observation: status, sizes, flags, Mesh::triangle(t) of every triangle as an unordered vertex set
-   (update(true) may reverse a triangle; the set of its vertices is unaffected) *)
+   (update(true) may reverse a triangle; the set of its vertices is unaffected), then the same triangles as positions
+   in the mesh's own vertex list (what Mesh::save writes) *)
 Definition m_observe (st : Z) (s : mst) : list Z :=
   [st; Z.of_nat (length (y_gverts s)); Z.of_nat (length (y_mverts s)); Z.of_nat (length (y_tris s));
-   b2z (y_outer s); b2z (y_cb s); b2z (y_iso s)] ++ flat_map sort3 (y_tris s).
+   b2z (y_outer s); b2z (y_cb s); b2z (y_iso s)] ++ flat_map sort3 (y_tris s)
+  ++ flat_map (fun t => let '(a, b, c) := t in sort3 (pos_in a (y_mverts s), pos_in b (y_mverts s), pos_in c (y_mverts s))) (y_tris s).
 
 Inductive mop :=
 | MLoad (i : nat)
